@@ -15,7 +15,7 @@ import (
 
 func gen() *lib.Gen {
 	return &lib.Gen{Depth: vrt.Param("depth", 1), Width: vrt.Param("width", 2), StrLen: vrt.Param("strlen", 1),
-		NameAlphabet: "ab", Alphabet: "ab\xCA\x9E", EmptyNames: true}
+		NameAlphabet: "ab", Alphabet: "ab\xCA\x9E", EmptyNames: true, NilMaps: true}
 }
 
 // Harness_pairs: Equal_Q coincides with RefEq, is reflexive and symmetric.
